@@ -60,7 +60,7 @@ def merge_lakefile(cur, scr):
 
 def merge_dispatcher(cur, scr):
     cur_t, scr_t = cur.decode(), scr.decode()
-    pairs = re.findall(r"(#\[path = \"[^\"]+\"\]\s*\n\s*(?:pub(?:\([a-z]+\))? )?mod [a-z0-9_]+;)", scr_t)
+    pairs = re.findall(r"(#\[path = \"[^\"]+\"\]\s*(?:pub(?:\([a-z]+\))? )?mod [a-z0-9_]+;)", scr_t)
     out = cur_t if cur_t.endswith("\n") else cur_t + "\n"
     added = []
     for p in pairs:
